@@ -61,6 +61,76 @@ def e2eSmallAll : List String → List String → Option (List String × Bool)
     pure (m :: ms, ok && oks)
   | _, _ => none
 
+/-! ### proxy life cycle on the vhost muxers (`life`): the lattice and probe table of harness/eng_tcpe2e_life.go -/
+
+/-- (tcpmux?, custom domain, routeByHTTPUser); the index is what a probe reports -/
+def lifeLattice : List (Bool × String × String) :=
+  [ (true, "a.life.test", ""), (true, "a.life.test", "alice"), (true, "a.life.test", "bob"),
+    (true, "b.life.test", "alice"), (true, "b.life.test", "carol"),
+    (true, "*.life.test", ""), (true, "*.life.test", "alice"),
+    (true, "h.x.life.test", ""), (true, "*.x.life.test", "bob"),
+    (false, "a.life.test", ""), (false, "h.x.life.test", ""), (false, "*.life.test", ""), (false, "*.x.life.test", "") ]
+
+def lifeHosts : List String := ["a.life.test", "b.life.test", "w.life.test", "h.x.life.test", "w.x.life.test"]
+def lifeUsers : List String := ["", "alice", "bob", "carol"]
+
+/-- (tcpmux?, host, HTTP user): tcpmux every host × every user, https every host -/
+def lifeProbes : List (Bool × String × String) :=
+  (lifeHosts.flatMap fun h => lifeUsers.map fun u => (true, h, u)) ++ lifeHosts.map fun h => (false, h, "")
+
+/-- a host that a proxy's own domain covers and no more specific route of the lattice does -/
+def lifeOwnHost (d : String) : String := if d.startsWith "*." then "w." ++ (d.drop 2).toString else d
+
+/-- the two route tables (tcpmux muxer, https muxer) -/
+structure LifeTabs where
+  mux : Routers
+  https : Routers
+
+def lifeActive (mask i : Nat) : Bool := (mask >>> i) % 2 == 1
+
+def lifeAdd (T : LifeTabs) (i : Nat) : LifeTabs :=
+  match lifeLattice[i]? with
+  | some (true, d, u) => { T with mux := (Router.add T.mux (Str.ofString d) [] (Str.ofString u) i).1 }
+  | some (false, d, u) => { T with https := (Router.add T.https (Str.ofString d) [] (Str.ofString u) i).1 }
+  | none => T
+
+def lifeDel (T : LifeTabs) (i : Nat) : LifeTabs :=
+  match lifeLattice[i]? with
+  | some (true, d, u) => { T with mux := Router.del T.mux (Str.ofString d) [] (Str.ofString u) }
+  | some (false, d, u) => { T with https := Router.del T.https (Str.ofString d) [] (Str.ofString u) }
+  | none => T
+
+/-- frpc's reload: the proxies that are no longer configured are closed (Routers.Del at frps), then the new ones start -/
+def lifeReload (T : LifeTabs) (old new : Nat) : LifeTabs :=
+  let idx := List.range lifeLattice.length
+  let T := (idx.filter fun i => lifeActive old i && !lifeActive new i).foldl lifeDel T
+  (idx.filter fun i => !lifeActive old i && lifeActive new i).foldl lifeAdd T
+
+def lifeOwner (T : LifeTabs) (p : Bool × String × String) : String :=
+  let R := if p.1 then T.mux else T.https
+  match Router.getVhost R (Str.ofString p.2.1) [] (Str.ofString p.2.2) with
+  | some r => toString r.payload
+  | none => "-"
+
+/-- C01 on one step: a user of an ACTIVE proxy's own endpoint is answered by that proxy's backend -/
+def lifeStepOk (mask : Nat) (owners : List String) : Bool :=
+  owners.length == lifeProbes.length &&
+  (List.range lifeLattice.length).all fun i =>
+    !lifeActive mask i ||
+    (match lifeLattice[i]? with
+     | some (m, d, u) => owners[lifeProbes.idxOf (m, lifeOwnHost d, u)]? == some (toString i)
+     | none => true)
+
+def lifeRun : LifeTabs → Nat → List Nat → List String
+  | _, _, [] => []
+  | T, old, m :: ms =>
+    let T := lifeReload T old m
+    ",".intercalate (lifeProbes.map (lifeOwner T)) :: lifeRun T m ms
+
+def hexNat? (s : String) : Option Nat :=
+  if s.isEmpty then none else
+  s.toList.foldlM (fun acc c => (hexVal c).map (acc * 16 + ·)) 0
+
 def e2eStep (st : Unit) (tok : List String) (impl : String) : Unit × Verdict :=
   match tok with
   | ["reset"] => (st, verdictOf "-" impl)
@@ -120,6 +190,27 @@ def e2eStep (st : Unit) (tok : List String) (impl : String) : Unit × Verdict :=
       | some (ms, ok) => (st, verdictOf s!"r={"|".intercalate ms}" impl (some ok))
       | none => (st, verdictOf "r=?" impl (some false))
     | none => (st, .bad "sbw")
+  | "life" :: rest =>
+    match (stkKV rest "steps").bind fun s => (s.splitOn "/").mapM hexNat? with
+    | some masks =>
+      -- route tables: Router.add / Router.del / getVhost (C06's model); C01.survivor_keeps_route
+      let m := "s=" ++ "/".intercalate (lifeRun { mux := Router.empty, https := Router.empty } 0 masks)
+      let prop := match stkRes impl "s" with
+        | some r =>
+          let steps := r.splitOn "/"
+          steps.length == masks.length &&
+            (masks.zip steps).all fun (mask, owners) => lifeStepOk mask (owners.splitOn ",")
+        | none => false
+      (st, verdictOf m impl (some prop))
+    | none => (st, .bad "life")
+  | "sched" :: rest =>
+    match stkKV rest "g" with
+    | some g =>
+      -- every connection of every group: own tag, own bytes both ways (C01.no_crosswire, pool_no_sharing)
+      let k := ((g.splitOn ",").map fun grp => (grp.splitOn "+").length).foldl (· + ·) 0
+      let prop := stkRes impl "xw" == some "0" && stkRes impl "bad" == some "0" && stkResNat impl "ok" == some k
+      (st, verdictOf s!"ok={k};xw=0;bad=0" impl (some prop))
+    | none => (st, .bad "sched")
   | _ => (st, .bad "unknown op")
 
 def e2e : Engine := { State := Unit, init := (), step := e2eStep }
